@@ -55,6 +55,63 @@ pub fn run(rep: &mut Rep) {
         }
         add_counters(rep, &w);
     }
+    // the connection is cut and the session resumed (hook H1) in the middle of the sequence: the set of unreleased
+    // identifiers is session state and survives
+    let rlen = if rep.quick() { 4 } else { 6 };
+    let rtotal = n.pow(rlen);
+    rep.note(&format!("resumption: all {rtotal} sequences of length {rlen}, each with the connection cut and the (unexpired) session resumed after every prefix"));
+    for idx in 0..rtotal {
+        for cut in 0..=rlen as usize {
+            let id = format!("res:{rlen}:{idx}:{cut}");
+            if !rep.take(total + idx * 8 + cut as u64, &id) {
+                continue;
+            }
+            let mut seq = Vec::new();
+            let mut k = idx;
+            for _ in 0..rlen {
+                seq.push(alpha[(k % n) as usize]);
+                k /= n;
+            }
+            let mut w = World::boot(WorldCfg { seed: rep.seed, sei: Some(3600), ..Default::default() });
+            let a = w.start(0, Kind::Sub);
+            w.settle_check();
+            w.deliver_ack(a, 1, 0, 0);
+            w.settle_check();
+            w.take_stream(a);
+            let sid = w.sub_id_of(a).unwrap_or(1);
+            for (pos, s) in seq.iter().enumerate() {
+                if pos == cut {
+                    w.eof();
+                    w.settle_check();
+                    w.resume(1, Some(3600), false);
+                }
+                match *s {
+                    Q2::Pub(id, dup) => w.in_publish(2, id, dup, &[sid], false),
+                    Q2::Rel(id) => w.in_pubrel(id),
+                }
+                w.settle_check();
+            }
+            if cut == seq.len() {
+                w.eof();
+                w.settle_check();
+                w.resume(1, Some(3600), false);
+                w.in_publish(2, 1, true, &[sid], false);
+                w.settle_check();
+            }
+            finish(&mut w);
+            rep.add("evaluations", 1);
+            rep.add("sequences_with_resumption", 1);
+            rep.distinct(&(&seq, cut, w.shape()));
+            // only the exactly-once delivery is C09's business here
+            for v in w.viols.iter_mut() {
+                if v.sig.starts_with("stream/") && !v.props.contains(&"C09") {
+                    v.props = &["C09"];
+                }
+            }
+            harvest(rep, &mut w, &id);
+            add_counters(rep, &w);
+        }
+    }
     // interleaved with QoS 0/1 traffic and client operations
     let a = Alpha {
         kinds: vec![Kind::Sub, Kind::Pub1, Kind::Pub2, Kind::Ping],
